@@ -299,6 +299,30 @@ for _name, (_shape, _var) in TREES.items():
              tiers=("quick", "thorough") if _name in ("tree1", "tree2", "tree2_dup", "tree3a", "tree3b") else ("thorough",))
 
 
+# history: the same TapBranch object used with two internal keys (memoised state on the tree must not leak between them)
+def _gen_tree_reused(rng, tier):
+    for t in range(10 if tier == "quick" else 60):
+        yield {"pub_first": {"__point__": rng.randrange(1, N)}, "pub": {"__point__": _DS[t] if t < len(_DS) else rng.randrange(1, N)},
+               "d0": _rb(rng, 32), "d1": _rb(rng, 32)}
+
+
+_T2 = _shape_expr((0, 1), [0, 1])
+_Q2 = "spec.taproot.output_key(pub, spec.taproot.tree_hash(%s))" % _T2
+_ens2 = ["returns()", "spec.curve.same(result[0], %s)" % _Q2, "len(result[1]) == 2"]
+for _i in range(2):
+    _row = "result[1][%d]" % _i
+    _ens2 += ["spec.curve.same(%s[1], result[0]) and %s[2] == result[0].parity" % (_row, _row),
+              "%s[2] == spec.taproot.parity(%s)" % (_row, _Q2),
+              "%s[0] == spec.taproot.control_block_ser(0xC0, spec.taproot.parity(%s), spec.taproot.x32(pub), spec.taproot.leaf_paths(%s)[%d][2])"
+              % (_row, _Q2, _T2, _i)]
+contract(H + "tree2_reused", props=("C12",), nl_uf=True,
+         params={"pub_first": point, "pub": point, "d0": D32, "d1": D32},
+         requires=["spec.taproot.tweak_defined(pub, spec.taproot.tree_hash(%s))" % _T2,
+                   "spec.taproot.tweak_defined(pub_first, spec.taproot.tree_hash(%s))" % _T2, "d0 != d1"]
+         + _sibling_distinct((0, 1), [0, 1]),
+         ensures=_ens2, gen=_gen_tree_reused)
+
+
 # ---------------------------------------------------------------------------- control block codec
 def _gen_cbrt(k):
     def gen(rng, tier):
